@@ -188,7 +188,7 @@ SPECS['C14'] = {'runs': {
               R('shorten', 'h_shorten.c', ['FAILING', 'KS=2', 'KB=2', 'SEGL=1', 'SFLAGS=(G_SCHEME_REQ|G_AUTH|G_HOSTKINDS)', 'BFLAGS=(G_SCHEME_REQ|G_AUTH)'], 'every subset of failing allocations during reference creation', FAILCOV, 600),
               R('normalize', 'h_norm.c', ['FAILING', 'KN=2', 'SEGL=1', 'NFLAGS=(G_SCHEME_OPT|G_AUTH|G_QUERY|G_PCT)', 'MASKS=8,63'], 'every subset of failing allocations during normalisation (PATH and all), borrowed and owned', FAILCOV + ['alloc-failure-borrowed'], 900),
               R('normalize-dots', 'h_norm.c', ['FAILING', 'KN=3', 'SEGL=2', 'NFLAGS=(G_SCHEME_OPT|G_AUTH)', 'MASKS=8'], 'every subset of failing allocations during PATH normalisation of <=3 segments of <=2 chars over [a-z.]', FAILCOV + ['alloc-failure-borrowed'], 900),
-              R('make-owner', 'h_owner.c', ['FAILING', 'KO=1', 'OFLAGS=(G_SCHEME_OPT|G_AUTH|G_HOSTKINDS|G_QUERY)'], 'every subset of failing allocations during make-owner', FAILCOV, 600),
+              R('make-owner', 'h_owner.c', ['FAILING', 'KO=2', 'OFLAGS=(G_SCHEME_OPT|G_AUTH|G_HOSTKINDS|G_QUERY)'], 'every subset of failing allocations during make-owner; all host kinds, <=2 segments (incl. empty ones)', FAILCOV, 600),
               R('dissect', 'h_query.c', ['MODE_DISSECT', 'FAILING', 'NMAX=4'], 'every subset of failing allocations during query dissection, texts 0..4', FAILCOV, 600)],
     'thorough': [R('parse', 'h_parse.c', ['FAILING', 'NMAX=6'], 'texts 0..6', FAILCOV, 2400),
               R('resolve', 'h_resolve.c', ['FAILING', 'KB=2', 'KR=3', 'SEGL=1', 'BFLAGS=(G_SCHEME_REQ|G_AUTH|G_HOSTKINDS)', 'RFLAGS=(G_AUTH|G_HOSTKINDS)'], 'references of <=3 segments', FAILCOV, 2400),
@@ -238,7 +238,8 @@ SPECS['C18'] = {'runs': {
     'bounds': {'quick': 'N<=4', 'thorough': 'N<=5, W N<=4'}, 'outside': 'longer names'}
 def aw(mode, n, cov, budget=900): return R('aw-' + mode.lower(), 'h_aw.c', ['MODE_' + mode, 'NMAX=%d' % n], 'narrow text of 0..%d symbolic bytes 1..255, wide text = its widening; %s' % (n, mode.lower()), cov, budget)
 SPECS['C19'] = {'runs': {
-    'quick': [aw('PARSE', 4, ['accepted', 'rejected', 'make-owner', 'normalize']), aw('PAIR', 3, ['add-base', 'remove-base', 'pair-op-succeeded']), aw('ESC', 3, ['escape-unescape']), aw('QUERY', 3, ['dissect', 'compose']), aw('FILE', 3, ['filename'])],
+    'quick': [aw('PARSE', 4, ['accepted', 'rejected', 'make-owner', 'normalize']), aw('PAIR', 3, ['add-base', 'remove-base', 'pair-op-succeeded']), aw('ESC', 3, ['escape-unescape']),
+              R('aw-esc-tokens', 'h_aw.c', ['MODE_ESC', 'TOKENS', 'NMAX=4'], 'sequences of 0..4 tokens (symbolic byte or %XY triplet with symbolic hex digits), wide = widened narrow; escape and unescape', ['escape-unescape'], 900), aw('QUERY', 3, ['dissect', 'compose']), aw('FILE', 3, ['filename'])],
     'thorough': [aw('PARSE', 6, ['accepted'], 3000), aw('PAIR', 4, ['pair-op-succeeded'], 3000), aw('ESC', 4, ['escape-unescape'], 3000), aw('QUERY', 5, ['compose'], 3000), aw('FILE', 5, ['filename'], 3000)]},
     'assumptions': COMMON_ASSUME + ['W output buffers are exact-size objects sized in characters; equality of results is asserted under the same path condition'],
     'bounds': {'quick': 'N<=4 (parse, to-string, make-owner, normalise, mask), N<=3 per operand (resolve, create reference, equals), N<=3 (escape, query, filename)', 'thorough': 'N<=6 / 4 / 4 / 5 / 5'}, 'outside': 'longer inputs'}
